@@ -367,6 +367,14 @@ class SArr(Sym):
         if isinstance(idx, SArr) and idx.kind == 'bool':
             if self.ndim != 1 and not isinstance(value, (SNum, int, float, SBool)):
                 raise OutOfSubset('mask assignment on rank %d' % self.ndim)
+            if idx.ndim == self.ndim and self.ndim > 1:
+                # a[mask] = scalar with an ELEMENTWISE mask of the array's own rank
+                for a_, b_ in zip(idx.shape, self.shape):
+                    vc.oblige('call-pre[mask shape == array shape]', a_ == b_)
+                m = idx.snapshot()
+                t = self._cast_scalar(value)
+                self._write(lambda *i: t, lambda *i: m.at(*i))
+                return
             vc.oblige('call-pre[mask length == array length]', idx.shape[0] == self.shape[0])
             m = idx.snapshot()
             if isinstance(value, SArr):
@@ -415,6 +423,9 @@ class SArr(Sym):
             return z3.ToReal(t)
         if self.kind == kind:
             return t
+        if self.kind == 'int' and kind == 'real':
+            # numpy stores a float into an integer array by truncation toward zero (finite values; A-REAL: inf/nan are not modelled here)
+            return z3.If(t >= 0, z3.ToInt(t), -z3.ToInt(-t))
         if self.kind == 'real' and kind == 'bool':
             return z3.If(t, z3.RealVal(1), z3.RealVal(0))
         raise OutOfSubset('store %s into %s array' % (kind, self.kind))
@@ -493,7 +504,10 @@ class SArr(Sym):
         raise OutOfSubset('truth value of an array')
 
     def __iter__(self):
-        raise OutOfSubset('python iteration over a symbolic array (needs a loop contract)')
+        c = conc(self.shape[0]) if self.shape else None
+        if c is None:
+            raise OutOfSubset('python iteration over a symbolic array (needs a loop contract)')
+        return iter([self[i] for i in range(c)])       # concrete first dimension: the rows, as numpy iterates them
 
     def __len__(self):
         c = conc(self.shape[0]) if self.shape else None
@@ -542,6 +556,12 @@ class SArr(Sym):
     def dot(self, o):
         from . import npspec
         return npspec.dot(self, o)
+
+    def diagonal(self):
+        from . import npspec
+        if self.ndim != 2:
+            raise OutOfSubset('diagonal() on rank %d' % self.ndim)
+        return npspec.diag(self)
 
     def flatten(self):
         if self.ndim == 1:
